@@ -114,7 +114,13 @@ class C02(Property):
                   "(shed-only-if, shed-when-saturated, idle and conservation are also proved for every interleaving of the "
                   "atomic steps of concurrent calls, on the possibly stale values each call read); capacity "
                   "= max(1, peak bucket pass count x min average latency x windowScale) over the buckets Reduce visits, windowScale "
-                  "= 10^6 / bucket duration for every bucket duration; the reference capacity prop_ok uses is proved equal to the model's. "
+                  "= 10^6 / bucket duration for every bucket duration; the reference capacity prop_ok uses is proved equal to the model's; "
+                  "'shedding in progress' as a function of the history alone (an episode starts with a shed and ends at the first cool Allow "
+                  "after the cool-off) is proved equal to the shedder's cool-off state and is what prop_ok judges with; over histories of the "
+                  "whole process (Disable / NewAdaptiveShedder / NewShedderGroup / GetShedder / traffic in any order) every shedder lives its "
+                  "own single-shedder history, a group member takes the flag of its first GetShedder, and a shedder built after a Disable() at "
+                  "any position never sheds; over request histories with overlapping requests the wrappers name every promise at most once, "
+                  "Fail iff overload class. "
                   "The model is tied to core/load, rest/handler and zrpc serverinterceptors by differential execution of generated "
                   "scenarios (single shedder, several shedders with load.Disable() and a ShedderGroup, the REST / zRPC wrapper in front "
                   "of one long-lived real shedder with overlapping requests) in overlay tests with a virtual clock and an injected CPU "
@@ -127,7 +133,10 @@ class C02(Property):
             "values 0 / 1 / -5 / 999 / 1000 (= cpuMax) / 1100 / 10^15; 20..160 Allow/Pass/Fail ops with clock gaps around bucket / cool-off "
             "/ window boundaries (rarely 10^15 ns), CPU traces low/high/at-threshold/spiky/ramp, checker reading split from the factor "
             "reading in ~20%, fail-heavy and multi-phase (overload - drain - pause - refill) families; multi: 2..4 shedders, a "
-            "ShedderGroup, Disable() between constructions, interleaved; wrest/wrpc: 20..90 start/finish events of overlapping "
+            "ShedderGroup, Disable() between constructions, interleaved; order: 1-2 groups, NewShedderGroup / Disable() (0-2 times) / "
+            "first and repeated GetShedder / NewAdaptiveShedder in every order, options passed twice, every shedder driven to saturation; "
+            "53 fixed histories first (ties, cool-off and bucket boundaries, episode end, sheds during the cool-off, construction off the "
+            "bucket grid, configuration orders, constants); wrest/wrpc: 20..90 start/finish events of overlapping "
             "requests with every handler outcome class through the real wrapper and a real shedder; "
             "non-trivial = (single) at least one shed, one Allow let in while hot and one completed Pass / (multi) two live shedders "
             "with traffic and a shed / (wrapper) a shed, a Pass, a Fail and >= 3 requests in flight at once; distinct = canonical JSON "
@@ -1542,15 +1551,19 @@ class C02(Property):
                     "or resolved twice), or a let-in request's promise was not resolved exactly once when its handler ended "
                     "(Fail iff 503 / DeadlineExceeded), or a shed request ran its handler")
         if case.get("kind") == "multi":
-            return ("several shedders in one process: one of them violates the property on its own history (state shared "
-                    "between instances, options lost on the way through ShedderGroup, or load.Disable() not honoured by a "
-                    "shedder built afterwards)")
+            return ("several shedders in one process, the configuration calls (Disable / NewShedderGroup / GetShedder / "
+                    "NewAdaptiveShedder) in the order given by the operations: one shedder violates the property on its own history "
+                    "(state shared between instances, options lost on the way through ShedderGroup, load.Disable() not honoured by a "
+                    "shedder BUILT afterwards - a group member is built by the first GetShedder of its key -, or honoured by one built "
+                    "before)")
         if case.get("kind", "shed") in ("rest", "rpc"):
             return ("wrapper: a shed request ran the handler / did not get the overload answer, or a let-in request's promise "
                     "was not resolved exactly once (Fail iff 503 / DeadlineExceeded), or the handler's result was altered")
         if case.get("kind") == "group":
             return "ShedderGroup: same key did not give the same shedder, or different keys shared one"
-        return ("on the implementation: an Allow was shed although not hot / not above 10% of capacity, or was admitted although "
+        return ("on the implementation: an Allow was shed although not hot (CPU below the threshold and no shedding episode open: "
+                "an episode starts with a shed request and ends at the first Allow under a cool CPU at least coolOffDuration after the "
+                "last overloaded one) / not above 10% of capacity, or was admitted although "
                 "overloaded with flying and avgFlying above capacity, or flying != admitted - resolved, or a disabled shedder shed")
 
 
